@@ -28,7 +28,10 @@ type Resp struct {
 	PreErrors  int    `json:"pre_errors,omitempty"`  // non-fatal error messages sent before the answer
 	PreSignals int    `json:"pre_signals,omitempty"` // signals emitted by the step before the answer
 	PreUnknown int    `json:"pre_unknown,omitempty"` // messages with an unknown message ID before the answer
-	DelayMs    int    `json:"delay_ms,omitempty"`
+	// PostSignals: signals of the run that arrive after its work-done (an asynchronous plugin's forwarder may be
+	// late); the client is expected to ignore them
+	PostSignals int `json:"post_signals,omitempty"`
+	DelayMs     int `json:"delay_ms,omitempty"`
 	// Data, when set, is the output data the peer answers with (the in-process result of the step on a
 	// reference plugin) instead of an echo of the input
 	Data    any  `json:"data,omitempty"`
@@ -68,6 +71,9 @@ type ClientPlan struct {
 	S2C       rt.PipeConfig   `json:"s2c"`
 	Features  map[string]bool `json:"features"`
 	Healthy   bool            `json:"healthy"` // the scripted peer follows the protocol (C06 peer P2)
+	// ExitAfterLast (v1): the plugin process exits right after its last answer, as real v1 plugins do, so the
+	// last bytes and the end of the stream may reach the client in one Read
+	ExitAfterLast bool `json:"exit_after_last,omitempty"`
 }
 
 // ClientOpts selects transcript features.
@@ -130,6 +136,9 @@ func PlanClient(s Src, o ClientOpts) *ClientPlan {
 	}
 	p.C2S = drawPipe(s, "c2s", false)
 	p.S2C = drawPipe(s, "s2c", false)
+	if o.V1 {
+		p.ExitAfterLast = s.Choose("cl.exitafterlast", 2) == 1
+	}
 	ncallers := 1
 	if o.MaxCallers > 1 {
 		ncallers = 1 + s.Choose("cl.ncallers", o.MaxCallers)
@@ -195,6 +204,10 @@ func PlanClient(s Src, o ClientOpts) *ClientPlan {
 				}
 				if ns > 0 {
 					p.Features["signals_to_step"] = true
+				}
+				if call.Resp.Kind == "workdone" && chance(s, "cl.postsig", 1, 5) {
+					call.Resp.PostSignals = 1 + s.Choose("cl.npostsig", 2)
+					p.Features["late_signals_from_step"] = true
 				}
 			}
 			calls = append(calls, call)
@@ -297,7 +310,14 @@ func (ss *scriptedServer) run() {
 		return
 	}
 	if ss.plan.Version == 1 {
+		planned, answered := 0, 0
+		for _, cs := range ss.plan.Callers {
+			planned += len(cs)
+		}
 		for {
+			if ss.plan.ExitAfterLast && answered >= planned && planned > 0 {
+				return
+			}
 			var ws refWorkStart
 			if err := dec.Decode(&ws); err != nil {
 				return
@@ -313,6 +333,7 @@ func (ss *scriptedServer) run() {
 			if err := ss.write(ss.answer("", call, ws.Config)); err != nil {
 				return
 			}
+			answered++
 		}
 	}
 	var wg sync.WaitGroup
@@ -378,7 +399,15 @@ func (ss *scriptedServer) run() {
 					ss.c2s.KillRead()
 					ss.s2c.KillWrite()
 				default:
-					_ = ss.write(ss.answer(runID, call, config))
+					if ss.write(ss.answer(runID, call, config)) != nil {
+						return
+					}
+					for i := 0; i < call.Resp.PostSignals; i++ {
+						rt.Yield(siteSrv)
+						if ss.write(runtimeMsg(atp.MessageTypeSignal, runID, map[string]any{"signal_id": "note", "data": map[string]any{"k": int64(100 + i)}})) != nil {
+							return
+						}
+					}
 				}
 			})
 		case atp.MessageTypeSignal:
@@ -1035,6 +1064,9 @@ func (e clientEngine) runOne(t *testing.T, batch string, plan *ClientPlan, fault
 		}
 		if n := obs.C2S.Coalesced + obs.S2C.Coalesced; n > 0 {
 			rec.Faults["coalesce"] = n
+		}
+		if n := obs.C2S.EOFsWithData + obs.S2C.EOFsWithData; n > 0 {
+			rec.Faults["eof-with-data"] = n
 		}
 	}
 	var wl []string
